@@ -12,7 +12,7 @@ Each clause of the property is one section:
               name/type it is not an answer to; singleflight: one resolution, every waiter served.
 * §2 `Udp`  — `DoUDP.ForwardDNS` only returns a datagram carrying the request's ID.
 * §3 `Pipe` — pipelined TCP: a delivered message carries the ID its waiter allocated and was read
-              from that waiter's connection while the waiter was registered; a timeout closes.
+              from that waiter's connection; a timeout closes.
 * §4 `Fwd`  — a retired forwarder is closed exactly once, after its last in-flight query.
 -/
 namespace DaeVerif.C09.Props
